@@ -175,6 +175,22 @@ func leafCert(key *rsa.PrivateKey, cn string, serial int64) *x509.Certificate {
 		pkix.Name{CommonName: cn, Organization: []string{"verif"}}, big.NewInt(serial))
 }
 
+// mintCertAlg: self-signed, the certificate's own signature made with the given algorithm.
+func mintCertAlg(key *rsa.PrivateKey, subject pkix.Name, serial *big.Int, alg x509.SignatureAlgorithm) *x509.Certificate {
+	tmpl := x509.Certificate{SerialNumber: serial, Subject: subject, SignatureAlgorithm: alg,
+		NotBefore: time.Now().Add(-time.Hour), NotAfter: time.Now().Add(24 * time.Hour),
+		KeyUsage: x509.KeyUsageDigitalSignature, ExtKeyUsage: []x509.ExtKeyUsage{x509.ExtKeyUsageCodeSigning}}
+	der, err := x509.CreateCertificate(rand.Reader, &tmpl, &tmpl, &key.PublicKey, key)
+	if err != nil {
+		panic(err)
+	}
+	c, err := x509.ParseCertificate(der)
+	if err != nil {
+		panic(err)
+	}
+	return c
+}
+
 func simpleCert(key *rsa.PrivateKey, cn string, serial int64) *x509.Certificate {
 	return mintCert(key, pkix.Name{CommonName: cn, Organization: []string{"verif"}}, big.NewInt(serial))
 }
